@@ -8,7 +8,7 @@
    solve_triangular is modelled as the inverse of the triangle it reads. *)
 From Coq Require Import String.
 From mathcomp Require Import all_ssreflect all_fingroup all_algebra.
-From MellonV Require Import MatOps MxInst MxPsd MatGen CondThm.
+From MellonV Require Import MatOps MxInst MxPsd MxChol MatGen CondThm.
 Set Implicit Arguments.
 Unset Strict Implicit.
 Import GRing.Theory Num.Theory.
@@ -136,6 +136,11 @@ Proof. by split; [exact: mean_batch|exact: mean_row_local|exact: mean_perm]. Qed
 
 End C01.
 
+(* non-vacuity of the Cholesky contract assumed above: lib/MxChol.v constructs the factor of every
+   symmetric positive definite matrix over any real closed field *)
+Theorem C01_chol_contract_satisfiable (F : rcfType) : chol_contract (@cholm F).
+Proof. exact: chol_contract_cholm. Qed.
+
 (* the nine public predictor classes are (formulation mixin, Predictor flavour) with empty bodies *)
 Theorem C01_nine_classes :
   predictor_classes =
@@ -164,3 +169,4 @@ Print Assumptions C01_chol_latent_eq_given.
 Print Assumptions C01_mean_is_affine_readout.
 Print Assumptions C01_mean_row_local.
 Print Assumptions C01_nine_classes.
+Print Assumptions C01_chol_contract_satisfiable.
